@@ -214,13 +214,35 @@ def weave_fn(src, fc):
         if ins.mode == 'entry':
             edits.append((body_open + 1, '\n' + txt + '\n'))
             continue
+        if ins.mode in ('loopbody', 'afterloop'):
+            if ins.pat >= len(loops):
+                raise AnchorLost('loop %d not found in %s' % (ins.pat, fc.path))
+            _s, _kw, bo = loops[ins.pat]
+            if ins.mode == 'loopbody':
+                edits.append((bo + 1, '\n' + txt + '\n'))
+            else:
+                edits.append((match_close(msk, bo) + 1, '\n' + txt + '\n'))
+            continue
+        if ins.mode == 'end':
+            # after the last statement of a unit-returning body
+            edits.append((body_close, '\n' + txt + '\n'))
+            continue
         if ins.mode == 'tail':
             # before the final expression of the body: after the last `;` at brace depth 0
-            k2, last, depth = body_open + 1, None, 0
+            k2, last = body_open + 1, None
             while k2 < body_close:
                 ch = msk[k2]
-                if ch in '([{':
+                if ch in '([':
                     k2 = match_close(msk, k2)
+                elif ch == '{':
+                    k2 = match_close(msk, k2)
+                    # a block statement (for/while/loop/if/match/bare block) ends a statement unless it is the
+                    # final expression itself or is continued by a method call / operator
+                    k3 = k2 + 1
+                    while k3 < body_close and msk[k3].isspace():
+                        k3 += 1
+                    if k3 < body_close and msk[k3] not in '.?;)],=+-*/&|^<>' and not msk.startswith('else', k3) and not msk.startswith('as ', k3):
+                        last = k2
                 elif ch == ';':
                     last = k2
                 k2 += 1
